@@ -47,6 +47,32 @@ DefinitionOK(d, fp) ==
   THEN fp.cls = "mono" /\ fp.deg2 = d.deg2 /\ fp.has_c /\ AsBag(fp.c2) = d.c2 /\ ~fp.neg
   ELSE fp.cls = "linear" /\ fp.coef = d.coef
 
+(* ---- the same definition solved for another variable ----------------------------------------- *)
+(* A monomial definition  ret = c * Prod args^p  is the identity  Prod_t t^(E[t]) = c^2  with doubled  *)
+(* exponents E[ret] = 2, E[arg_i] = -deg2_i.  Any other relation among exactly the same quantity   *)
+(* types (the member functions and constructors that solve the definition for mu, rho, v ...) must *)
+(* state the same identity: its exponent vector is the definition's scaled by m = 2 / E[its result] *)
+(* and its constant is the matching power of c.                                                     *)
+ExpOf(ret, args, deg2) == [t \in {ret} \cup {args[i] : i \in 1..Len(args)} |->
+                             IF t = ret THEN 2 ELSE -deg2[CHOOSE i \in 1..Len(args) : args[i] = t]]
+SolvedMonoOK(d, xret, xargs, xfp) ==
+  LET Ed == ExpOf(d.ret, d.args, d.deg2)
+      Ex == ExpOf(xret, xargs, xfp.deg2)
+      k  == Ed[xret]                                   \* Ex = (2 / k) * Ed
+  IN /\ xfp.cls = "mono" /\ DOMAIN Ex = DOMAIN Ed /\ k # 0
+     /\ \A t \in DOMAIN Ed : Ex[t] * k = 2 * Ed[t]
+     /\ xfp.has_c /\ ~xfp.neg /\ BagScale(k, AsBag(xfp.c2)) = BagScale(2, d.c2)
+(* linear definitions  ret = Sum k_i arg_i :  ret - Sum k_i arg_i = 0 ; another relation among the same types is a multiple of it *)
+RatMulEq(a, b, c) == a[1] * b[1] * c[2] = c[1] * a[2] * b[2]          \* a * b = c on <<num, den>> pairs
+VecOf(ret, args, coef) == [t \in {ret} \cup {args[i] : i \in 1..Len(args)} |->
+                             IF t = ret THEN <<1, 1>> ELSE LET i == CHOOSE j \in 1..Len(args) : args[j] = t IN <<-coef[i][1], coef[i][2]>>]
+SolvedLinearOK(d, xret, xargs, xfp) ==
+  LET Vd == VecOf(d.ret, d.args, d.coef)
+      Vx == VecOf(xret, xargs, xfp.coef)
+  IN /\ xfp.cls = "linear" /\ DOMAIN Vx = DOMAIN Vd /\ Vd[xret][1] # 0
+     /\ \A t \in DOMAIN Vd : RatMulEq(Vx[t], Vd[xret], Vd[t])
+SolvedOK(d, xret, xargs, xfp) == IF d.form = "mono" THEN SolvedMonoOK(d, xret, xargs, xfp) ELSE SolvedLinearOK(d, xret, xargs, xfp)
+
 (* ---- tensor-valued definitions, in index notation over integers (Tensor.tla) ----------------- *)
 (* strain = sym(grad u): 2*eps_ij = a_ij + a_ji, as a symmetric dyad (xx xy xz yy yz zz)          *)
 TwiceStrainOfGradient(a) == SymOfDyad(DyadAdd(a, Transpose(a)))
